@@ -22,7 +22,7 @@ EXPLANATION = (
     'own parameters, and range tests reject exactly outside the inclusive '
     'bounds.  The set equality iterator = formula = validator = sampler is '
     'arithmetic over runtime sizes and is not decided.')
-FLOORS = {'C11.a': 3, 'C11.b': 12, 'C11.c': 2, 'C11.d': 4}
+FLOORS = {'C11.a': 3, 'C11.b': 12, 'C11.c': 2, 'C11.d': 4, 'C11.e': 2}
 FILES = ['pyglove/core/geno/base.py', 'pyglove/core/geno/categorical.py',
          'pyglove/core/geno/space.py', 'pyglove/core/geno/numerical.py',
          'pyglove/core/geno/custom.py', 'pyglove/core/geno/sweeping.py',
@@ -105,11 +105,12 @@ def rule_a(ctx):
   idx = ctx.index
   n_input = 0
   for f in idx.all_funcs():
-    if not f.module.name.startswith(G):
+    if not (f.module.name.startswith(G) or f.module.name.startswith('pyglove.core.hyper.')):
       continue
     g = None
     for sub in [x for x in A.walk_local(f.node) if isinstance(x, ast.Subscript)]:
-      if not (isinstance(sub.value, ast.Attribute) and sub.value.attr == 'candidates'):
+      # geno: <spec>.candidates[i]; hyper: self._candidate_templates[i] (decode side)
+      if not (isinstance(sub.value, ast.Attribute) and sub.value.attr in ('candidates', '_candidate_templates')):
         continue
       if isinstance(sub.slice, ast.Slice):
         continue
@@ -380,11 +381,88 @@ def rule_d(ctx):
            'attach_spec default / use_spec call changed')
 
 
+def rule_e(ctx):
+  """(1) Validation descends into the chosen candidate on every path: once the
+  index checks have passed, the child DNA of every decision is validated by
+  the chosen candidate (a constant candidate must reject extra children too).
+  (2) The sweeping cursor never takes the value None after it has advanced: the
+  exhausted state is absorbing (a later propose() does not start over)."""
+  idx = ctx.index
+  f = idx.func(G + 'categorical.Choices.validate')
+  g = C.cfg_of(f.node)
+  def is_cand_validate(n):
+    for c in n.calls():
+      d = A.call_name(c)
+      if isinstance(c.func, ast.Attribute) and c.func.attr == 'validate':
+        recv = A.unparse(c.func.value)
+        if 'candidates[' in recv:
+          return True
+        if isinstance(c.func.value, ast.Name):
+          for _, v in D.defs_of(f.node, c.func.value.id):
+            if v is not None and 'candidates[' in A.unparse(v):
+              return True
+    return False
+  cv = [n for n in g.nodes if n.ast is not None and is_cand_validate(n)]
+  problems = []
+  if len(cv) < 2:
+    problems.append(f'{len(cv)} delegations to the chosen candidate (single and multi choice each need one)')
+  # every subscript of the candidate list (a decision was resolved) is followed by that delegation
+  picks = [n for n in g.nodes if n.ast is not None and n not in cv and any(
+      isinstance(x, ast.Subscript) and A.unparse(x.value).endswith('candidates') for e in n.exprs() for x in ast.walk(e))
+      and n.kind != 'test']
+  for p_ in picks:
+    w = g.can_skip(p_, lambda n: n in cv, to=None)
+    if w:
+      problems.append(f'after the candidate is chosen (line {p_.lineno}) a path ends without validating its child DNA: {w}')
+  # multi-choice loop: from the loop body, every normal path passes the delegation
+  loops = [n for n in g.nodes if n.kind == 'iter' and any(k in cv for k in g.nodes if k.ast is not None and any(
+      x is k.ast for x in ast.walk(n.ast)))]
+  for lp in loops:
+    for m, lab in lp.succ:
+      if lab in ('body', 'true', 'next') and m not in cv:
+        seen, parent = g.reach(m, blocked_nodes={k.id for k in cv}, follow_exc=False)
+        if lp.id in seen or any(h.kind == 'loophead' and h.ast is lp.ast and h.id in seen for h in g.nodes):
+          problems.append('a sub-decision of a multi-choice can be accepted without validating its child DNA '
+                          'against the chosen candidate')
+  ctx.ob('C11.e', f.fq, not problems,
+         'validation descends into the chosen candidate for every decision, on every path that passed the index checks',
+         f.loc, '; '.join(problems))
+  # sweeping cursor
+  f = idx.func(G + 'sweeping.Sweeping._propose')
+  g = C.cfg_of(f.node)
+  problems = []
+  stores = [n for n in g.nodes if n.kind == 'stmt' and isinstance(n.ast, ast.Assign)
+            and any(A.dotted(t) == 'self._last_proposed_dna' for t in n.ast.targets)]
+  if not stores:
+    problems.append('the cursor is never advanced')
+  for st in stores:
+    v = st.ast.value
+    if not isinstance(v, ast.Name):
+      problems.append(f'the cursor is assigned `{A.unparse(v, 60)}` directly: at exhaustion it becomes None, the '
+                      f'start marker, and the next propose() sweeps the space again')
+      continue
+    tests = [t for t in g.nodes if t.kind == 'test' and A.unparse(t.ast) in (f'{v.id} is None', f'{v.id} is not None')]
+    if not tests:
+      problems.append(f'`{v.id}` is stored without an `is None` test')
+      continue
+    blocked = set()
+    for t in tests:
+      nonnone = 'false' if A.unparse(t.ast).endswith('is None') else 'true'
+      blocked |= {(t.id, m.id, l) for m, l in t.succ if l == nonnone}
+    seen, _ = g.reach(g.entry, blocked_edges=blocked, follow_exc=False)
+    if st.id in seen:
+      problems.append('the cursor can be overwritten with None')
+  ctx.ob('C11.e', f.fq, not problems,
+         'the sweeping cursor only ever advances to a DNA (exhaustion is absorbing: no DNA is proposed twice)',
+         f.loc, '; '.join(problems))
+
+
 def run(ctx):
   ctx.consult(*FILES)
   rule_a(ctx)
   rule_b(ctx)
   rule_c(ctx)
   rule_d(ctx)
+  rule_e(ctx)
   ctx.assume('exactness of the odometer (next_dna) against the counting formula is arithmetic over '
              'runtime sizes: not decided statically')
